@@ -3,6 +3,7 @@ package props
 import (
 	"errors"
 	"fmt"
+	"net/http"
 	"reflect"
 	"sync"
 	"sync/atomic"
@@ -24,6 +25,7 @@ type flaky struct {
 	hdr         map[string][]string
 	body        []byte
 	failLatency time.Duration
+	failHdr     map[string][]string   // returned together with the error of a failing attempt (servers answer 429 / 503 with headers)
 	latency     map[int]time.Duration // attempt index -> how long the wrapped getter takes to answer
 	maxCalls    int                   // safety valve against a spinning loop: after this many attempts, sleep a little per call
 }
@@ -42,6 +44,9 @@ func (f *flaky) Get(url string) (map[string][]string, []byte, error) {
 		time.Sleep(f.failLatency)
 	}
 	if f.failures < 0 || n < f.failures {
+		if f.failHdr != nil {
+			return f.failHdr, []byte("Too Many Requests"), errors.New("scripted failure: status 429")
+		}
 		return nil, nil, errors.New("scripted failure")
 	}
 	return f.hdr, f.body, nil
@@ -52,6 +57,7 @@ type retryCase struct {
 	failures     int           // -1 = forever
 	slowSuccess  time.Duration // the successful attempt takes this long to answer (it may straddle the deadline)
 	slowFailure  time.Duration // every failing attempt takes this long to answer
+	retryAfter   string        // failing attempts come with a response header map carrying this Retry-After value ("date" = an HTTP date 5 s ahead)
 }
 
 type retryResult struct {
@@ -74,6 +80,13 @@ func runRetry(c retryCase) retryResult {
 	// the valve engages only once the busy-loop limit is exceeded anyway
 	f := &flaky{failures: c.failures, hdr: hdr, body: body, maxCalls: 10*int(c.timeout/effc) + 110}
 	f.failLatency = c.slowFailure
+	if c.retryAfter != "" {
+		v := c.retryAfter
+		if v == "date" {
+			v = time.Now().Add(5 * time.Second).UTC().Format(http.TimeFormat)
+		}
+		f.failHdr = map[string][]string{"Retry-After": {v}, "Content-Type": {"text/plain"}}
+	}
 	if c.slowSuccess > 0 && c.failures >= 0 {
 		f.latency = map[int]time.Duration{c.failures: c.slowSuccess}
 	}
@@ -129,28 +142,34 @@ func c20(x *mon.Ctx) {
 					continue
 				}
 				seen[k] = true
-				cases = append(cases, retryCase{to, cp, k, 0, 0})
+				cases = append(cases, retryCase{to, cp, k, 0, 0, ""})
 			}
 		}
 	}
 	// a success that is delivered: immediately although the timeout is zero; or by an attempt that started before the deadline and answers after it
 	cases = append(cases,
-		retryCase{300 * time.Millisecond, 200 * time.Millisecond, 1, 250 * time.Millisecond, 0},
-		retryCase{300 * time.Millisecond, 100 * time.Millisecond, 2, 250 * time.Millisecond, 0},
-		retryCase{50 * time.Millisecond, 20 * time.Millisecond, 0, 120 * time.Millisecond, 0},
-		retryCase{0, 20 * time.Millisecond, 0, 30 * time.Millisecond, 0},
+		retryCase{300 * time.Millisecond, 200 * time.Millisecond, 1, 250 * time.Millisecond, 0, ""},
+		retryCase{300 * time.Millisecond, 100 * time.Millisecond, 2, 250 * time.Millisecond, 0, ""},
+		retryCase{50 * time.Millisecond, 20 * time.Millisecond, 0, 120 * time.Millisecond, 0, ""},
+		retryCase{0, 20 * time.Millisecond, 0, 30 * time.Millisecond, 0, ""},
 		// failures that are slow themselves (connect / read timeouts): the time spent inside the wrapped getter counts against the timeout
-		retryCase{300 * time.Millisecond, 20 * time.Millisecond, -1, 0, 100 * time.Millisecond},
-		retryCase{300 * time.Millisecond, 1 * time.Millisecond, -1, 0, 50 * time.Millisecond},
-		retryCase{time.Second, 100 * time.Millisecond, 40, 0, 150 * time.Millisecond})
+		retryCase{300 * time.Millisecond, 20 * time.Millisecond, -1, 0, 100 * time.Millisecond, ""},
+		retryCase{300 * time.Millisecond, 1 * time.Millisecond, -1, 0, 50 * time.Millisecond, ""},
+		retryCase{time.Second, 100 * time.Millisecond, 40, 0, 150 * time.Millisecond, ""})
+	// failing attempts that come with response headers asking for a longer pause: the configured maximum still bounds every wait
+	cases = append(cases,
+		retryCase{timeout: time.Second, cap: 20 * time.Millisecond, failures: 3, retryAfter: "2"},
+		retryCase{timeout: time.Second, cap: 20 * time.Millisecond, failures: -1, retryAfter: "3"},
+		retryCase{timeout: time.Second, cap: 100 * time.Millisecond, failures: 2, retryAfter: "date"},
+		retryCase{timeout: 300 * time.Millisecond, cap: time.Millisecond, failures: 5, retryAfter: "1"})
 	// maximum retry delays that are not on the doubling ladder 4 s, 8 s, 16 s ... (a few seconds of wall clock, run in parallel)
 	cases = append(cases,
-		retryCase{6 * time.Second, 2200 * time.Millisecond, 1, 0, 0},
-		retryCase{6 * time.Second, 3 * time.Second, 1, 0, 0},
-		retryCase{6 * time.Second, 2500 * time.Millisecond, -1, 0, 0})
+		retryCase{6 * time.Second, 2200 * time.Millisecond, 1, 0, 0, ""},
+		retryCase{6 * time.Second, 3 * time.Second, 1, 0, 0, ""},
+		retryCase{6 * time.Second, 2500 * time.Millisecond, -1, 0, 0, ""})
 	if !x.Quick() {
-		cases = append(cases, retryCase{12 * time.Second, 5 * time.Second, 2, 0, 0}, retryCase{40 * time.Second, 9 * time.Second, 3, 0, 0}, retryCase{30 * time.Second, 4100 * time.Millisecond, -1, 0, 0})
-		cases = append(cases, retryCase{2 * time.Minute, 30 * time.Second, -1, 0, 0}, retryCase{2 * time.Minute, 30 * time.Second, 3, 0, 0})
+		cases = append(cases, retryCase{12 * time.Second, 5 * time.Second, 2, 0, 0, ""}, retryCase{40 * time.Second, 9 * time.Second, 3, 0, 0, ""}, retryCase{30 * time.Second, 4100 * time.Millisecond, -1, 0, 0, ""})
+		cases = append(cases, retryCase{2 * time.Minute, 30 * time.Second, -1, 0, 0, ""}, retryCase{2 * time.Minute, 30 * time.Second, 3, 0, 0, ""})
 	}
 	var mu sync.Mutex
 	results := make([]retryResult, len(cases))
@@ -174,6 +193,9 @@ func c20(x *mon.Ctx) {
 		}
 		if c.slowFailure > 0 {
 			param += fmt.Sprintf(" each-failure-takes=%v", c.slowFailure)
+		}
+		if c.retryAfter != "" {
+			param += " failures-carry-Retry-After=" + c.retryAfter
 		}
 		var probs []string
 		calm := r.late < slack/4
